@@ -1,9 +1,51 @@
 import QclibModel.Proofs.MajorityMain
+import QclibModel.Proofs.PyLemmas
+import QclibModel.Gen.Majority
 /-
   C05 (majority gate) — "The majority gate flips its target iff at least half of the controls
   are 1."  Property theorems only; proofs live in Proofs/Majority.lean, Proofs/MajorityMain.lean.
 -/
 namespace Qclib
+
+/-- `math.comb` of the translation's run-time support is the model's `binom` (Pascal rows). -/
+theorem pyComb_cast (a b : Int) : Py.pyComb a b = ((binom a.toNat b.toNat : Nat) : Int) := by
+  have hrow : ∀ n, Py.pyCombRow n = pascalRow n := by
+    intro n
+    induction n with
+    | zero => rfl
+    | succ n ih => simp only [Py.pyCombRow, pascalRow, nextRow, ih]
+  simp only [Py.pyComb, binom, hrow, Int.ofNat_eq_natCast]
+
+/-- **C05 (majority, source tie).**  `Gen.Majority.operate_sizes` is re-translated on every run from
+the statements of `qclib/gates/majority.py::operate` that compute `n_min` and `n_controls`
+(`tools/py2lean.py`, Python `int` as `Int`, `len(controls)` as the parameter).  For every number of
+controls `n` it returns exactly the hand model the theorems below speak about: `n_min = majMin n`
+and `n_controls = majSizes n`.  An edit of the rounding, of the range bounds or of the
+binomial-parity filter in the source changes the generated text and breaks this proof. -/
+theorem C05_majority_src (n : Nat) :
+    Gen.Majority.operate_sizes (n : Int)
+      = ((majMin n : Int), (majSizes n).map (fun (k : Nat) => (k : Int))) := by
+  unfold Gen.Majority.operate_sizes majSizes
+  simp only [Py.pyCeilDiv_two, ← majMin.eq_1]
+  have hm : majMin n ≤ n + 1 := by unfold majMin; omega
+  have h1 : ((n : Int) + 1) = ((majMin n + (n + 1 - majMin n) : Nat) : Int) := by omega
+  rw [h1, Py.pyRange_cast, List.filter_map]
+  congr 2
+  apply List.filter_congr
+  intro k _
+  simp only [Function.comp, pyComb_cast]
+  have e1 : ((k : Int) - 1).toNat = k - 1 := by omega
+  have e2 : ((majMin n : Int) - 1).toNat = majMin n - 1 := by omega
+  rw [e1, e2]
+  generalize binom (k - 1) (majMin n - 1) = x
+  by_cases h : x % 2 = 1
+  · have : ((x : Int) % 2) = 1 := by omega
+    simp [h, this]
+  · have : ¬ ((x : Int) % 2) = 1 := by omega
+    simp [h, this]
+
+/-- Non-vacuity: for 5 controls the translated source gives `n_min = 3`, sizes `[3, 4]`. -/
+example : Gen.Majority.operate_sizes 5 = (3, [3, 4]) := by decide
 
 /-- **C05 (majority, subset sizes).**  For every number of controls `n ≥ 1` and every Hamming
 weight `w ≤ n`, the number of emitted multi-controlled X gates that fire on an input of weight `w`
